@@ -55,7 +55,7 @@ impl Prop for C10 {
     }
 
     fn runner(&self) -> Box<dyn Runner> {
-        Box::new(R { srv: None, rx: c11::R::new(), rx_max: 0, rx_bytes: 0, cli: None })
+        Box::new(R { srv: None, rx: c11::R::new(), rx_max: 0, rx_bytes: 0, cli: None, held: (0, 0) })
     }
 }
 
@@ -65,12 +65,15 @@ struct R {
     rx_max: usize,
     rx_bytes: usize,
     cli: Option<transport_client::Cli>,
+    /// (chunks, bytes) held for the incomplete message before the current op
+    held: (usize, usize),
 }
 
 impl Runner for R {
     fn step(&mut self, toks: &[&str]) -> (String, Verdict) {
         match toks {
             ["reset", "conn", mc, mm, ..] => {
+                self.held = (0, 0);
                 self.srv = Some(srv_conn::Conn::new(mc.parse().unwrap_or(0), mm.parse().unwrap_or(0)));
                 ("ok".to_string(), Verdict::Ok)
             }
@@ -87,7 +90,22 @@ impl Runner for R {
                     Some((ty, _, _, _)) => format!("{}-chunk", ty),
                     None => "-".to_string(),
                 };
-                let v = if conn.max_chunks > 0 && info.pend_len > conn.max_chunks {
+                // "a peer exceeding either limit gets an error": the chunk that completes a message is
+                // not buffered for long, so the accessor alone does not see it (seed C10c: the limits
+                // were applied to intermediate chunks only) — a message assembled and passed on (`ok`,
+                // not stored) from more chunks or bytes than the limits allow is a failure as well
+                let (held_n, held_b) = self.held;
+                self.held = (info.pend_len, info.pend_bytes);
+                let this_len: Option<usize> = match toks {
+                    ["ch", _, _, _, n, ..] => n.parse().ok(),
+                    _ => None,
+                };
+                let assembled = info.err.is_none() && info.pend_len == 0 && !info.responses.is_empty() && info.chunk.is_some() && held_n > 0;
+                let v = if assembled && conn.max_chunks > 0 && held_n + 1 > conn.max_chunks {
+                    Verdict::fail("message_within_limits", &class, format!("a message of {} chunks was accepted, limit {}", held_n + 1, conn.max_chunks))
+                } else if assembled && conn.max_msg > 0 && this_len.map_or(false, |l| held_b + l > conn.max_msg) {
+                    Verdict::fail("message_within_limits", &class, format!("a message of {} bytes was accepted, limit {}", held_b + this_len.unwrap_or(0), conn.max_msg))
+                } else if conn.max_chunks > 0 && info.pend_len > conn.max_chunks {
                     Verdict::fail("pending_chunks_bounded", &class, format!("{} chunks held, limit {}", info.pend_len, conn.max_chunks))
                 } else if conn.max_msg > 0 && info.pend_bytes > conn.max_msg {
                     Verdict::fail("pending_bytes_bounded", &class, format!("{} bytes held, limit {}", info.pend_bytes, conn.max_msg))
